@@ -11,6 +11,7 @@ import Sqfs.Model.XfrmOld
     → `ok <bytes taken> <eof 0|1> <inner left> <sizes seen by each get>` | `err <code> <bytes taken> <sizes>` | `hang`
 * `wrap <new|old> <gzip|xz|bzip2|zstd> <c|d> <absorb> <gran> <thresh> <call>...`
     calls: `<mode 0|1|2>:<room>:<in hex>` → per call `ret,consumed,<out hex>` joined by spaces (`hang` ends the list)
+* `magic <hex>` → `xfrm_compressor_id_from_magic`; `probe <hex>` → `plain` | `wrap <id>` (decision of `tar_open_stream`)
 * `toyenc <hex>` → the one-shot encoding; `toydec <hex>` → `ok <hex>` | `fail`
 * `monitor ...` — the specification predicates evaluated on an implementation's observed behaviour
 -/
@@ -139,6 +140,14 @@ def step (line : String) : String :=
       if (v = "new" ∨ v = "old") ∧ (dir = "c" ∨ dir = "d") then runWrap (v = "old") backend (dir = "c") ⟨a, g, t⟩ calls
       else "bad-op"
     | _, _, _, _ => "bad-op"
+  | ["magic", h] => match fromHex h with
+    | some x => toString (compressorIdFromMagic x)
+    | none => "bad-op"
+  | ["probe", h] => match fromHex h with
+    | some x => match openStreamCodec x with
+      | some id => s!"wrap {id}"
+      | none => "plain"
+    | none => "bad-op"
   | ["toyenc", h] => match fromHex h with
     | some x => toHexTok (Toy.encode x)
     | none => "bad-op"
